@@ -17,7 +17,7 @@ from ..engine import emit, rx
 from ..engine import pattern as P
 from ..engine.facts import dotted, const, src, walk_func, str_value
 from . import skeletons as sk
-from .common import pn
+from .common import pn, access_paths
 from .c13 import check_skeleton, loop_construct_traces, _T
 
 PRIMARY = ["if", "for", "while", "try", "with"]
